@@ -106,6 +106,9 @@ func validateConfig(c *TransportConfig) error {
 	if len(c.TransportMap) == 0 {
 		return errors.New("transport map cannot be empty")
 	}
+	if _, ok := c.TransportMap[c.InitialTransportID]; !ok {
+		return errors.Errorf("initial transport ID %q is not in the transport map", c.InitialTransportID)
+	}
 	for _, t := range c.TransportMap {
 		if t.NegotiationParams().TransportGroupID == "" {
 			return errors.New("transport group ID cannot be empty")
@@ -158,6 +161,11 @@ func (m *Transport) transportIDLoop() {
 	m.logger.Infof(m.ctx, "Starting transport ID loop")
 	defer m.logger.Infof(m.ctx, "Stopping transport ID loop")
 	for id := range ch.ReadOrDone(m.ctx, m.transportIDCh) {
+		if _, ok := m.transportMap[id]; !ok {
+			// not a member (unknown NIC, empty poller result, ...): keep the current selection
+			m.logger.Warnf(m.ctx, "Ignoring unknown transport ID %q", id)
+			continue
+		}
 		m.mu.Lock()
 		if m.currentTransportID != id {
 			m.logger.Infof(m.ctx, "Switching transport to %s", id)
